@@ -1,6 +1,12 @@
 """AST translator: /repo/mokapot/**/*.py -> lean/MokapotVerif/Generated/*.lean
 
-Effects.lean   every call site that can introduce nondeterminism (C08)
+Effects.lean   every call site that can introduce nondeterminism (C08): global / unseeded randomness, clocks, hash/id,
+               enumerations of sets (also of sets handed to or returned by functions of the package: `set-order`),
+               of lists / dicts / frames whose ORDER was fixed while a set was enumerated and of everything derived
+               from them (`order-taint`; for the maps of a Proteins object `map-order`), uses of dictionary values made
+               by enumerating a set (`map-value`), directory listings (`dir-order`), lists that joblib workers append
+               to (`thread-order`).  Name based and flow-insensitive (taint holds from the line of the tainting
+               statement or of its outermost enclosing loop); see GAPS-C08.md.
 FileOps.lean   every call site that touches the file system, with its literal mode / pattern (C09)
 Constants.lean streaming chunk-size constants and their environment variables (C05)
 
@@ -29,6 +35,41 @@ def dotted(node) -> str:
 
 
 SET_FUNCS = set()   # bare names of functions of the package whose return value is a set (filled by generate)
+PARAM_KINDS = {}    # function name -> {parameter name: "set" | "dos"}: what the call sites of the package hand over
+PARAM_TAINT = {}    # function name -> {parameter names receiving a container whose ORDER depends on the hash seed}
+TAINT_FUNCS = {}    # function name -> set of tainted positions of the returned tuple (None = the whole value)
+TAINT_ATTRS = set()  # attribute names that hold order-tainted containers (from constructor keywords)
+VALUE_TAINT_ATTRS = set()   # attribute names of dictionaries whose VALUES were made by enumerating a set ('; '.join(set))
+FUNC_PARAMS = {}    # function name -> positional parameter names
+PACKAGE_CLASSES = set()   # classes defined in the package
+MODULE_ALIASES = set()    # names bound by import statements (so that `utils.flatten(..)` is a package call, `w.flatten()` is not)
+DELAYED_FUNCS = set()   # functions run by joblib workers (`delayed(f)`): appends to their arguments happen in completion order
+ORDER_FREE = ("sorted", "len", "set", "frozenset", "isin")   # consumers for which the order of their argument is irrelevant
+ENUMERATORS = ("list", "tuple", "join", "enumerate", "array", "asarray", "next", "iter", "Series", "DataFrame", "zip",
+               "dict", "Index", "concat", "hstack", "concatenate", "chain")
+MUTATORS = ("add", "append", "extend", "update", "setdefault", "insert", "appendleft")
+# the maps of a Proteins object are filled by read_fasta while it enumerates sets (floor of TAINT_ATTRS: these stay
+# inventoried even if the inference below should lose track of them)
+PROTEIN_MAPS = ("peptide_map", "protein_map", "shared_peptides")
+
+
+def callee_name(call):
+    """bare name of the package function / class a call refers to, as far as names tell: `f(..)`, `module.f(..)`,
+    `self.f(..)`; a method call on some other object (`weights.flatten()`) is not resolved"""
+    f = call.func
+    if isinstance(f, ast.Name):
+        return f.id
+    if isinstance(f, ast.Attribute) and isinstance(f.value, ast.Name) and (
+            f.value.id in MODULE_ALIASES or f.value.id in ("self", "cls")):
+        return f.attr
+    return None
+
+
+def _all_functions(trees):
+    for tree in trees:
+        for fn in ast.walk(tree):
+            if isinstance(fn, (ast.FunctionDef, ast.AsyncFunctionDef)):
+                yield fn
 
 
 def set_returning_functions(trees):
@@ -38,36 +79,100 @@ def set_returning_functions(trees):
     for _ in range(3):
         SET_FUNCS.clear()
         SET_FUNCS.update(found)
-        for tree in trees:
-            for fn in ast.walk(tree):
-                if isinstance(fn, (ast.FunctionDef, ast.AsyncFunctionDef)):
-                    w = Walker("?")
-                    w.scan_set_variables(fn)
-                    for n in ast.walk(fn):
-                        if isinstance(n, ast.Return) and n.value is not None and w.is_set_expr(n.value):
-                            found.add(fn.name)
+        for fn in _all_functions(trees):
+            w = Walker("?")
+            w.scan_set_variables(fn)
+            for n in ast.walk(fn):
+                if isinstance(n, ast.Return) and n.value is not None and w.is_set_expr(n.value):
+                    found.add(fn.name)
     SET_FUNCS.clear()
     SET_FUNCS.update(found)
     return found
+
+
+def interprocedural_tables(trees):
+    """what flows between the functions of the package: set / dict-of-set arguments, order-tainted arguments and
+    return values, constructor keywords that store an order-tainted container in an attribute, functions that run
+    in joblib workers. Flow-insensitive, name based (bare function names), iterated a few times."""
+    for t in (PARAM_KINDS, PARAM_TAINT, TAINT_FUNCS, FUNC_PARAMS):
+        t.clear()
+    TAINT_ATTRS.clear()
+    VALUE_TAINT_ATTRS.clear()
+    DELAYED_FUNCS.clear()
+    PACKAGE_CLASSES.clear()
+    MODULE_ALIASES.clear()
+    for tree in trees:
+        for n in ast.walk(tree):
+            if isinstance(n, (ast.Import, ast.ImportFrom)):
+                MODULE_ALIASES.update((a.asname or a.name).split(".")[0] for a in n.names)
+    for tree in trees:
+        PACKAGE_CLASSES.update(n.name for n in ast.walk(tree) if isinstance(n, ast.ClassDef))
+    for fn in _all_functions(trees):
+        FUNC_PARAMS[fn.name] = [a.arg for a in fn.args.posonlyargs + fn.args.args]
+    for tree in trees:
+        for n in ast.walk(tree):
+            if isinstance(n, ast.Call) and dotted(n.func).split(".")[-1] == "delayed" and n.args:
+                DELAYED_FUNCS.add(dotted(n.args[0]).split(".")[-1])
+    for _ in range(4):
+        for fn in _all_functions(trees):
+            w = Walker("?")
+            w.scan_set_variables(fn)
+            w.scan_taint(fn)
+            for n in ast.walk(fn):
+                if isinstance(n, ast.Return) and n.value is not None:
+                    if isinstance(n.value, ast.Tuple):
+                        for i, e in enumerate(n.value.elts):
+                            if w.is_tainted(e):
+                                TAINT_FUNCS.setdefault(fn.name, set()).add(i)
+                    elif w.is_tainted(n.value):
+                        TAINT_FUNCS.setdefault(fn.name, set()).add(None)
+                if isinstance(n, ast.Call):
+                    callee = callee_name(n)
+                    params = FUNC_PARAMS.get(callee)
+                    offset = 1 if params and params[0] in ("self", "cls") else 0
+                    named = [(params[i + offset], a) for i, a in enumerate(n.args)
+                             if params is not None and i + offset < len(params)]
+                    named += [(k.arg, k.value) for k in n.keywords if k.arg]
+                    for pname, a in named:
+                        if params is not None:
+                            if w.is_dos_expr(a):
+                                PARAM_KINDS.setdefault(callee, {})[pname] = "dos"
+                            elif w.is_set_expr(a):
+                                PARAM_KINDS.setdefault(callee, {}).setdefault(pname, "set")
+                            if w.is_tainted(a):
+                                PARAM_TAINT.setdefault(callee, set()).add(pname)
+                    if callee in PACKAGE_CLASSES:      # a constructor of the package: the keyword names the attribute
+                        for k in n.keywords:
+                            if k.arg and w.is_tainted(k.value):
+                                TAINT_ATTRS.update((k.arg, "_" + k.arg))
+                            if k.arg and isinstance(k.value, ast.Name) and k.value.id in w.valtainted:
+                                VALUE_TAINT_ATTRS.update((k.arg, "_" + k.arg))
 
 
 class Walker(ast.NodeVisitor):
     def __init__(self, rel):
         self.rel = rel
         self.func = ["<module>"]
+        self.params = [[]]
         self.effects = []
         self.fileops = []
         self.parents = []
         self.setvars = set()
         self.dosvars = set()
+        self.valtainted = set()   # dictionaries whose values were made by enumerating a set
+        self.tainted = {}     # name -> line from which it holds a container whose order depends on the hash seed
 
     def visit_FunctionDef(self, node):
         self.func.append(node.name)
-        saved = (self.setvars, self.dosvars)
-        self.setvars, self.dosvars = set(self.setvars), set(self.dosvars)
+        self.params.append([a.arg for a in node.args.posonlyargs + node.args.args + node.args.kwonlyargs])
+        saved = (self.setvars, self.dosvars, self.tainted, self.valtainted)
+        self.setvars, self.dosvars, self.tainted = set(self.setvars), set(self.dosvars), dict(self.tainted)
+        self.valtainted = set(self.valtainted)
         self.scan_set_variables(node)
+        self.scan_taint(node)
         self.generic_visit(node)
-        self.setvars, self.dosvars = saved
+        self.setvars, self.dosvars, self.tainted, self.valtainted = saved
+        self.params.pop()
         self.func.pop()
 
     # ---- a small flow-insensitive inference of set-typed local names ------------------------------
@@ -83,6 +188,9 @@ class Walker(ast.NodeVisitor):
                     "intersection", "union", "difference", "symmetric_difference", "copy") \
                     and self.is_set_expr(e.func.value):
                 return True
+            if isinstance(e.func, ast.Attribute) and e.func.attr in ("pop", "get") and e.args \
+                    and isinstance(e.func.value, ast.Name) and e.func.value.id in self.dosvars:
+                return True                        # D.pop(k) / D.get(k) of a dict of sets
             if n.split(".")[-1] in SET_FUNCS:      # a function of the package that returns a set
                 return True
         if isinstance(e, ast.Name):
@@ -101,8 +209,17 @@ class Walker(ast.NodeVisitor):
             return True
         return isinstance(e, ast.Name) and e.id in self.dosvars
 
+    @staticmethod
+    def peel_order_preserving(it):
+        """sorted(D.items(), key=..) / list(D.items()) / enumerate(D.items()) enumerate the same (key, value) pairs"""
+        while isinstance(it, ast.Call) and dotted(it.func).split(".")[-1] in ("sorted", "list", "tuple", "reversed") \
+                and it.args:
+            it = it.args[0]
+        return it
+
     def bind_items_target(self, target, it):
         """for k, v in D.items() / for v in D.values() with D a dict of sets: v is a set"""
+        it = self.peel_order_preserving(it)
         if isinstance(it, ast.Call) and isinstance(it.func, ast.Attribute) and isinstance(it.func.value, ast.Name) \
                 and it.func.value.id in self.dosvars:
             if it.func.attr == "items" and isinstance(target, ast.Tuple) and len(target.elts) == 2 \
@@ -112,6 +229,8 @@ class Walker(ast.NodeVisitor):
                 self.setvars.add(target.id)
 
     def scan_set_variables(self, fn):
+        for name, kind in PARAM_KINDS.get(getattr(fn, "name", ""), {}).items():
+            (self.dosvars if kind == "dos" else self.setvars).add(name)   # what the package's call sites hand over
         for _ in range(3):       # a few passes instead of a real fix-point
             for n in ast.walk(fn):
                 if isinstance(n, ast.Assign) and len(n.targets) == 1 and isinstance(n.targets[0], ast.Name):
@@ -119,22 +238,176 @@ class Walker(ast.NodeVisitor):
                         self.dosvars.add(n.targets[0].id)
                     elif self.is_set_expr(n.value):
                         self.setvars.add(n.targets[0].id)
+                elif isinstance(n, ast.Assign) and len(n.targets) == 1 and isinstance(n.targets[0], ast.Subscript) \
+                        and isinstance(n.targets[0].value, ast.Name) and self.is_set_expr(n.value):
+                    self.dosvars.add(n.targets[0].value.id)          # D[k] = <set>: D is a dict of sets
                 elif isinstance(n, ast.For):
                     self.bind_items_target(n.target, n.iter)
                 elif isinstance(n, ast.comprehension):
                     self.bind_items_target(n.target, n.iter)
-        # parameters documented as sets cannot be seen; only what is constructed locally
+        # parameters are sets only as far as a call site inside the package shows it (PARAM_KINDS)
 
-    def flag_set_var(self, how, e, line):
-        if isinstance(e, (ast.Name, ast.Subscript)) and self.is_set_expr(e):
-            self.effects.append((self.rel, self.func[-1], line, "set-order", f"{how}:{dotted(e)}", False))
+    # ---- order taint: lists / dicts whose ORDER derives from the enumeration of a set ---------------
+    def hash_ordered_iter(self, it):
+        """does a loop over `it` run in an order that depends on the hash seed?  (a set, or a container that was
+        itself built in such a loop; `sorted(..)` launders, enumerate/zip/.items() and friends do not)"""
+        while True:
+            if isinstance(it, ast.Call):
+                last = dotted(it.func).split(".")[-1]
+                if last in ORDER_FREE:
+                    return False
+                if last in ("enumerate", "list", "tuple", "iter", "reversed") and it.args:
+                    it = it.args[0]
+                    continue
+                if last == "zip":
+                    return any(self.hash_ordered_iter(a) for a in it.args)
+                if last in ("items", "keys", "values") and isinstance(it.func, ast.Attribute) and not it.args:
+                    base = it.func.value
+                    return self.is_tainted(base)
+            break
+        return self.is_set_expr(it) or self.is_tainted(it)
+
+    def is_tainted(self, e):
+        if isinstance(e, ast.Name):
+            return e.id in self.tainted and getattr(e, "lineno", 1 << 30) >= self.tainted[e.id]
+        if isinstance(e, ast.Attribute):
+            return e.attr in TAINT_ATTRS or self.is_tainted(e.value)      # T.index, T.columns, T.values
+        if isinstance(e, (ast.List, ast.Tuple)):
+            return any(self.is_tainted(el) for el in e.elts)              # pd.concat([T, ..])
+        if isinstance(e, ast.Subscript):                                  # T[mask] / T[:n] keep T's order (T[key] does not)
+            return self.is_tainted(e.value) and (isinstance(e.slice, ast.Slice) or self.is_tainted(e.slice))
+        if isinstance(e, (ast.ListComp, ast.DictComp, ast.GeneratorExp)):
+            return any(self.hash_ordered_iter(g.iter) for g in e.generators)
+        if isinstance(e, ast.Call):
+            last = dotted(e.func).split(".")[-1]
+            if last in ORDER_FREE:
+                return False
+            if None in TAINT_FUNCS.get(callee_name(e), ()):
+                return True
+            if isinstance(e.func, ast.Call) and dotted(e.func.func).split(".")[-1] == "Parallel" and e.args \
+                    and isinstance(e.args[0], (ast.GeneratorExp, ast.ListComp)):
+                job = e.args[0].elt      # Parallel(..)(delayed(f)(..) for ..): the list of f's results
+                if isinstance(job, ast.Call) and isinstance(job.func, ast.Call) and job.func.args \
+                        and TAINT_FUNCS.get(dotted(job.func.args[0]).split(".")[-1]):
+                    return True
+            if isinstance(e.func, ast.Attribute) and self.is_tainted(e.func.value) \
+                    and last not in ("get", "pop", "count", "isin", "sum", "startswith", "split", "remove"):
+                return True                                               # T.any(axis=0), T.copy(), T.items(), ...
+            if last in ("list", "tuple", "dict", "Series", "DataFrame", "array", "asarray", "Index", "concat",
+                        "reversed", "enumerate", "chain", "from_iterable"):
+                args = list(e.args) + [k.value for k in e.keywords]
+                return any(self.is_set_expr(a) or self.is_tainted(a) for a in args)
+        return False
+
+    @staticmethod
+    def mutated_name(stmt_or_expr):
+        """the container changed by `X[..] = ..`, `X[..].add(..)`, `X.append(..)`, `X += ..` (None otherwise)"""
+        def base(e):
+            while isinstance(e, ast.Subscript):
+                e = e.value
+            return e.id if isinstance(e, ast.Name) else None
+        n = stmt_or_expr
+        if isinstance(n, ast.Assign):
+            for t in n.targets:
+                if isinstance(t, ast.Subscript):
+                    return base(t)
+        if isinstance(n, ast.AugAssign):
+            return base(n.target)
+        if isinstance(n, ast.Call) and isinstance(n.func, ast.Attribute) and n.func.attr in MUTATORS:
+            return base(n.func.value)
+        return None
+
+    def scan_taint(self, fn):
+        for pname in PARAM_TAINT.get(getattr(fn, "name", ""), set()):
+            self.tainted[pname] = 0
+        # a statement inside a loop can influence everything from the start of the outermost enclosing loop
+        loop_start = {}
+        def mark(node, start):
+            for ch in ast.iter_child_nodes(node):
+                st = start
+                if isinstance(ch, (ast.For, ast.While)) and st is None:
+                    st = ch.lineno
+                if hasattr(ch, "lineno"):
+                    loop_start[id(ch)] = st if st is not None else ch.lineno
+                mark(ch, st)
+        mark(fn, None)
+
+        def taint(x, node):
+            line = loop_start.get(id(node), getattr(node, "lineno", 0))
+            if x not in self.tainted or line < self.tainted[x]:
+                self.tainted[x] = line
+        for n in ast.walk(fn):
+            # D[k] = "; ".join(S) / list(S) / tuple(S) with S a set: the VALUES of D depend on the hash seed
+            if isinstance(n, ast.Assign) and len(n.targets) == 1 and isinstance(n.targets[0], ast.Subscript) \
+                    and isinstance(n.targets[0].value, ast.Name) and isinstance(n.value, ast.Call) \
+                    and dotted(n.value.func).split(".")[-1] in ENUMERATORS and n.value.args \
+                    and self.is_set_expr(n.value.args[0]):
+                self.valtainted.add(n.targets[0].value.id)
+        for _ in range(4):
+            for n in ast.walk(fn):
+                if isinstance(n, ast.For) and self.hash_ordered_iter(n.iter):
+                    for m in ast.walk(n):
+                        x = self.mutated_name(m)
+                        if x is not None and x not in self.setvars:
+                            taint(x, n)      # built entry by entry in hash order (for a dict: its KEY order)
+                elif isinstance(n, ast.Assign) and len(n.targets) == 1:
+                    t = n.targets[0]
+                    if isinstance(t, ast.Name) and self.is_tainted(n.value):
+                        taint(t.id, n)
+                    elif isinstance(t, ast.Tuple) and isinstance(n.value, ast.Call):
+                        pos = TAINT_FUNCS.get(callee_name(n.value), ())
+                        for i, el in enumerate(t.elts):
+                            if isinstance(el, ast.Name) and (i in pos or None in pos):
+                                taint(el.id, n)
+
+    def enclosing_calls(self):
+        """names of the calls around the node being visited, innermost first, up to the statement"""
+        out = []
+        for p in reversed(self.parents):
+            if isinstance(p, ast.Call):
+                out.append(dotted(p.func).split(".")[-1])
+            elif isinstance(p, (ast.stmt, ast.comprehension)):
+                break
+        return out
+
+    def order_free_here(self):
+        return any(n in ORDER_FREE for n in self.enclosing_calls())
+
+    def flag_iteration(self, it, line):
+        """a `for` (statement or comprehension) over `it`"""
+        if isinstance(it, (ast.Name, ast.Subscript)) and self.is_set_expr(it):
+            self.effects.append((self.rel, self.func[-1], line, "set-order", f"for:{dotted(it)}", False))
+            return
+        core = it
+        while isinstance(core, ast.Call) and dotted(core.func).split(".")[-1] in (
+                "enumerate", "list", "tuple", "iter", "reversed", "items", "keys", "values") and (
+                core.args or isinstance(core.func, ast.Attribute)):
+            core = core.args[0] if core.args else core.func.value
+        if isinstance(core, ast.Attribute) and core.attr in set(PROTEIN_MAPS) | TAINT_ATTRS:
+            if core is it:      # `for k in proteins.peptide_map` (the `.keys()` forms are flagged at the call)
+                self.effects.append((self.rel, self.func[-1], line, "map-order", f"raw:{core.attr}", False))
+        elif not self.is_set_expr(it) and self.hash_ordered_iter(it) and not self.order_free_here():
+            self.effects.append((self.rel, self.func[-1], line, "order-taint", f"for:{ast.unparse(it)}", False))
+
+    def visit_Attribute(self, node):
+        if node.attr in VALUE_TAINT_ATTRS and isinstance(node.ctx, ast.Load):
+            # a dictionary whose value strings list a set in hash order: only its KEYS may be used
+            parent = self.parents[-1] if self.parents else None
+            keys_only = isinstance(parent, ast.Attribute) and parent.attr == "keys"
+            member = isinstance(parent, ast.Compare) and node in parent.comparators and all(
+                isinstance(o, (ast.In, ast.NotIn)) for o in parent.ops)
+            accessor = isinstance(parent, ast.Return) and isinstance(node.value, ast.Name) and node.value.id == "self"
+            if not (keys_only or member or accessor):
+                how = parent.attr if isinstance(parent, ast.Attribute) else type(parent).__name__
+                self.effects.append((self.rel, self.func[-1], node.lineno, "map-value", f"{node.attr}:{how}", False))
+        self.generic_visit(node)
 
     def visit_For(self, node):
-        self.flag_set_var("for", node.iter, node.lineno)
+        self.flag_iteration(node.iter, node.lineno)
         self.generic_visit(node)
 
     def visit_comprehension(self, node):
-        self.flag_set_var("for", node.iter, getattr(node.iter, "lineno", 0))
+        self.flag_iteration(node.iter, getattr(node.iter, "lineno", 0))
         self.generic_visit(node)
 
     visit_AsyncFunctionDef = visit_FunctionDef
@@ -175,6 +448,7 @@ class Walker(ast.NodeVisitor):
         fn = self.func[-1]
         line = node.lineno
         add = lambda kind, detail, seeded: self.effects.append((self.rel, fn, line, kind, detail, seeded))  # noqa: E731
+        map_attrs = set(PROTEIN_MAPS) | TAINT_ATTRS
         # ---- randomness
         if name.startswith(("np.random.", "numpy.random.")):
             if last == "default_rng":
@@ -184,15 +458,16 @@ class Walker(ast.NodeVisitor):
         elif name.startswith("random."):
             add("py-random", last, False)
         elif last == "sample" and isinstance(node.func, ast.Attribute):
-            add("df-sample", name, self.kw(node, "random_state") is not None)
-        elif last in ("permutation", "shuffle", "choice") and isinstance(node.func, ast.Attribute) \
-                and "rng" in dotted(node.func.value):
+            rs = self.kw(node, "random_state")
+            # `random_state=None` (or a literal that is not derived from the caller's seed) is the global state again
+            add("df-sample", name, rs is not None and not (isinstance(rs, ast.Constant) and rs.value is None))
+        elif last in ("permutation", "shuffle", "choice", "integers", "random", "normal", "uniform") \
+                and isinstance(node.func, ast.Attribute) and "rng" in dotted(node.func.value):
             add("rng-draw", name, True)
         elif name in ("hash", "id") and len(node.args) == 1:
             add("hash-id", name, False)
         elif last in ("keys", "values", "items") and isinstance(node.func, ast.Attribute) \
-                and isinstance(node.func.value, ast.Attribute) \
-                and node.func.value.attr in ("peptide_map", "protein_map", "shared_peptides"):
+                and isinstance(node.func.value, ast.Attribute) and node.func.value.attr in map_attrs:
             # the maps of a Proteins object are filled by read_fasta while it enumerates sets, so their KEY ORDER
             # depends on the hash seed: an enumeration of them is harmless only when sorted or used for membership
             how = "sorted" if self.wrapped_in(("sorted",)) else "isin" if self.wrapped_in(("isin",)) else "raw"
@@ -200,30 +475,60 @@ class Walker(ast.NodeVisitor):
         elif name in ("time.time", "time.perf_counter", "uuid.uuid4", "os.getpid", "datetime.datetime.now",
                       "datetime.now"):
             add("clock", name, False)
-        elif last in ("list", "tuple", "join", "enumerate", "array", "next", "iter") and node.args and \
+        elif last in ("glob", "rglob", "iglob", "listdir", "iterdir", "scandir", "walk"):
+            # the order in which a directory is listed is a property of the file system
+            pat = self.lit(node.args[-1]) if node.args else None
+            free = self.order_free_here()
+            add("dir-order", ("sorted" if "sorted" in self.enclosing_calls() else "count" if free else "raw")
+                + ":" + last + ":" + (pat or (dotted(node.func.value) if isinstance(node.func, ast.Attribute) else "?")),
+                free)
+        elif last in ENUMERATORS and node.args and \
                 isinstance(node.args[0], (ast.Name, ast.Subscript)) and self.is_set_expr(node.args[0]):
             add("set-order", f"{last}:{dotted(node.args[0])}", False)
         elif last == "pop" and isinstance(node.func, ast.Attribute) and not node.args and \
                 isinstance(node.func.value, (ast.Name, ast.Subscript)) and self.is_set_expr(node.func.value):
             add("set-order", f"pop:{dotted(node.func.value)}", False)
+        elif last in ENUMERATORS and any(
+                (isinstance(a, ast.Attribute) and a.attr in map_attrs) for a in node.args):
+            # pd.Series(proteins.peptide_map), list(proteins.peptide_map), ...
+            a = [a for a in node.args if isinstance(a, ast.Attribute) and a.attr in map_attrs][0]
+            free = self.order_free_here()
+            add("map-order", ("sorted" if free else "raw") + f":{last}({a.attr})", free)
+        elif last in ENUMERATORS + ("from_iterable",) and any(
+                self.is_tainted(a) and not self.is_set_expr(a) for a in node.args):
+            # a list / dict whose order was fixed by the enumeration of a set is enumerated in turn
+            a = [a for a in node.args if self.is_tainted(a) and not self.is_set_expr(a)][0]
+            free = self.order_free_here()
+            add("order-taint", ("sorted" if free else "raw") + f":{last}({ast.unparse(a)})", free)
         elif name in ("set", "frozenset") and node.args:
             # a set whose iteration order may escape: list(set(..)), "..".join(set(..)), for .. in set(..)
-            esc = None
+            esc, top = None, node
             for p in reversed(self.parents):
                 if isinstance(p, ast.Call):
                     pn = dotted(p.func).split(".")[-1]
-                    if pn in ("list", "tuple", "join", "enumerate", "array"):
+                    if pn in ENUMERATORS:
                         esc = pn
                     break
                 if isinstance(p, (ast.For, ast.comprehension)):
                     esc = "for"
                     break
                 if isinstance(p, ast.BinOp):
+                    top = p
                     continue
                 if isinstance(p, ast.stmt):
                     break
             if esc:
-                add("set-order", esc, False)
+                # one entry per SITE: the text of the whole set expression is part of the entry, so that a new
+                # `list(set(..))` in a function that already has one is a new entry
+                add("set-order", f"{esc}:{ast.unparse(top)}", False)
+        if last in ("append", "extend", "insert", "appendleft") and isinstance(node.func, ast.Attribute) \
+                and fn in DELAYED_FUNCS:
+            base = node.func.value
+            while isinstance(base, ast.Subscript):
+                base = base.value
+            if isinstance(base, ast.Name) and base.id in self.params[-1]:
+                # a joblib worker appends to a list it shares with the other workers: completion order
+                add("thread-order", f"{last}:{base.id}", False)
         # ---- file system
         fo = lambda kind, mode, target: self.fileops.append((self.rel, fn, line, kind, mode, target))  # noqa: E731
         if name == "open" or last == "open" and name in ("gzip.open", "io.open"):
@@ -282,6 +587,7 @@ def generate(repo: Path, outdir: Path, write_if_changed):
         except SyntaxError:
             pass
     set_returning_functions(trees)
+    interprocedural_tables(trees)
     for p in sorted((repo / "mokapot").rglob("*.py")):
         rel = str(p.relative_to(repo))
         try:
@@ -291,7 +597,9 @@ def generate(repo: Path, outdir: Path, write_if_changed):
             continue
         w = Walker(rel)
         w.visit(tree)
-        effects += w.effects
+        for e in w.effects:          # the two `set(..)` calls of `set(a) - set(b)` describe one site
+            if e not in effects:
+                effects.append(e)
         fileops += w.fileops
         if rel.endswith("constants.py"):
             for node in tree.body:
@@ -305,6 +613,17 @@ def generate(repo: Path, outdir: Path, write_if_changed):
                         consts.append((node.targets[0].id, env, int(default)))
                     except Exception:
                         consts.append((node.targets[0].id, "?", 0))
+    # one entry per SITE: a repeated (function, kind, detail) gets an ordinal, so that a new enumeration with the same
+    # text as an accounted one is a new entry (the allow-lists of Props/C08.lean name function + detail)
+    seen_sites = {}
+    numbered = []
+    for f, fn, ln, k, d, sd in effects:
+        if k in ("set-order", "order-taint", "thread-order", "map-order", "dir-order"):
+            n = seen_sites[(f, fn, k, d)] = seen_sites.get((f, fn, k, d), 0) + 1
+            if n > 1:
+                d = f"{d}#{n}"
+        numbered.append((f, fn, ln, k, d, sd))
+    effects = numbered
     hdr = "/-! generated by tools/gen_repo.py from /repo/mokapot — do not edit -/\nnamespace Mk.Generated\n\n"
     eff = hdr + ("structure Effect where\n  file : String\n  func : String\n  line : Nat\n  kind : String\n"
                  "  detail : String\n  seeded : Bool\n  deriving Repr, DecidableEq\n\n"
